@@ -7,7 +7,10 @@ package main
 import (
 	"fmt"
 	"go/ast"
+	"go/parser"
 	"os"
+	"path/filepath"
+	"sort"
 	"strconv"
 	"strings"
 )
@@ -16,25 +19,75 @@ import (
 // their bodies is written (the bodies themselves are tied by translation at value level: Props/C01P.lean) ----------------
 
 // memoizeClipFacts: Memoize contains a full slice expression x[:len(x):len(x)] (the capacity clip of the list that is
-// cached and returned), and it comes before the call of ResultCache().Save
+// cached and returned), and it comes before the call of ResultCache().Save.  The clip may stand in Memoize itself or in
+// an unexported function of the package that Memoize calls (a helper a refactoring split off): then the position of
+// the call counts.
 func memoizeClipFacts() (clips, beforeSave bool) {
 	fd := findFunc(parseFile("combinator/memoize.go"), "Memoize")
 	if fd == nil {
 		return false, false
 	}
+	helpers := map[string]*ast.FuncDecl{}
+	if entries, err := filepath.Glob(filepath.Join(repo, "combinator", "*.go")); err == nil {
+		sort.Strings(entries)
+		for _, e := range entries {
+			if strings.HasSuffix(e, "_test.go") {
+				continue
+			}
+			if f, err := parser.ParseFile(fset, e, nil, 0); err == nil {
+				for _, d := range f.Decls {
+					if h, ok := d.(*ast.FuncDecl); ok && h.Recv == nil && h.Body != nil && !ast.IsExported(h.Name.Name) {
+						helpers[h.Name.Name] = h
+					}
+				}
+			}
+		}
+	}
+	isClip := func(x *ast.SliceExpr) bool {
+		if x.Slice3 && x.High != nil && x.Max != nil && (x.Low == nil || norm(x.Low) == "0") {
+			want := "len(" + norm(x.X) + ")"
+			return norm(x.High) == want && norm(x.Max) == want
+		}
+		return false
+	}
+	var hasClip func(n ast.Node, seen map[string]bool) bool
+	hasClip = func(n ast.Node, seen map[string]bool) bool {
+		found := false
+		ast.Inspect(n, func(m ast.Node) bool {
+			switch x := m.(type) {
+			case *ast.SliceExpr:
+				if isClip(x) {
+					found = true
+				}
+			case *ast.CallExpr:
+				if id, ok := x.Fun.(*ast.Ident); ok && id.Obj == nil || ok && id.Obj != nil && id.Obj.Kind == ast.Fun {
+					if h := helpers[id.Name]; h != nil && !seen[id.Name] {
+						seen[id.Name] = true
+						if hasClip(h.Body, seen) {
+							found = true
+						}
+					}
+				}
+			}
+			return true
+		})
+		return found
+	}
 	clipPos, savePos := -1, -1
 	ast.Inspect(fd, func(n ast.Node) bool {
 		switch x := n.(type) {
 		case *ast.SliceExpr:
-			if x.Slice3 && x.High != nil && x.Max != nil && (x.Low == nil || norm(x.Low) == "0") {
-				want := "len(" + norm(x.X) + ")"
-				if norm(x.High) == want && norm(x.Max) == want && clipPos < 0 {
-					clipPos = int(x.Pos())
-				}
+			if isClip(x) && clipPos < 0 {
+				clipPos = int(x.Pos())
 			}
 		case *ast.CallExpr:
 			if sel, ok := x.Fun.(*ast.SelectorExpr); ok && sel.Sel.Name == "Save" && savePos < 0 {
 				savePos = int(x.Pos())
+			}
+			if id, ok := x.Fun.(*ast.Ident); ok && clipPos < 0 && (id.Obj == nil || id.Obj.Kind == ast.Fun) {
+				if h := helpers[id.Name]; h != nil && hasClip(h.Body, map[string]bool{id.Name: true}) {
+					clipPos = int(x.Pos())
+				}
 			}
 		}
 		return true
@@ -65,6 +118,207 @@ func appendNodeCalls(rel, fn string) []string {
 	return out
 }
 
+// ---- slice-level skeleton of a function that is ALSO tied by translation at value level ---------------------------------
+// What the slice-level machine needs of such a function beyond its value semantics (which Props/C01P.lean proves of the
+// translated body) is WHICH allocating / in-place operations it performs: the calls of append / copy / make, the slice
+// literals, the slice expressions, the writes to an element, and the calls of the list primitives Append / AppendNode /
+// SetReaderPos, in source order, with the local variables abstracted to `_` (field, type, function and package names kept).
+// An unexported function of the package that the function calls contributes its operations at the call.  This survives a
+// restructuring of the control flow (type switch / assertion chain, extracted helper, renamed variable, early return) and
+// changes when an allocation, a copy, an in-place write or a primitive call is added, removed, reordered or retargeted.
+func abstractLocals(n ast.Node) string {
+	var b strings.Builder
+	var pr func(e ast.Node)
+	raw := norm(n)
+	// collect the local identifiers (parser-resolved objects of kind Var) by position and blank them out of the text
+	type span struct{ pos, end int }
+	var spans []span
+	base := int(n.Pos())
+	ast.Inspect(n, func(m ast.Node) bool {
+		switch x := m.(type) {
+		case *ast.SelectorExpr:
+			// only the receiver side can be a local
+			ast.Inspect(x.X, func(k ast.Node) bool {
+				if id, ok := k.(*ast.Ident); ok && id.Obj != nil && id.Obj.Kind == ast.Var {
+					spans = append(spans, span{int(id.Pos()) - base, int(id.End()) - base})
+				}
+				return true
+			})
+			return false
+		case *ast.KeyValueExpr:
+			return true
+		case *ast.Ident:
+			if x.Obj != nil && x.Obj.Kind == ast.Var {
+				spans = append(spans, span{int(x.Pos()) - base, int(x.End()) - base})
+			}
+		}
+		return true
+	})
+	_ = pr
+	_ = raw
+	// print from the original source bytes (positions are byte offsets into the file)
+	src := nodeSource(n)
+	if src == "" {
+		return raw
+	}
+	sort.Slice(spans, func(i, j int) bool { return spans[i].pos < spans[j].pos })
+	last := 0
+	for _, sp := range spans {
+		if sp.pos < last || sp.end > len(src) {
+			continue
+		}
+		b.WriteString(src[last:sp.pos])
+		b.WriteString("_")
+		last = sp.end
+	}
+	b.WriteString(src[last:])
+	var out strings.Builder
+	for _, r := range b.String() {
+		if r == ' ' || r == '\t' || r == '\n' || r == '\r' {
+			continue
+		}
+		out.WriteRune(r)
+	}
+	return out.String()
+}
+
+// the source text of a node (read from the file it was parsed from)
+func nodeSource(n ast.Node) string {
+	p, e := fset.Position(n.Pos()), fset.Position(n.End())
+	if !p.IsValid() || !e.IsValid() || p.Filename != e.Filename {
+		return ""
+	}
+	data, err := os.ReadFile(p.Filename)
+	if err != nil || e.Offset > len(data) || p.Offset > e.Offset {
+		return ""
+	}
+	return string(data[p.Offset:e.Offset])
+}
+
+var slicePrimitives = map[string]bool{"Append": true, "AppendNode": true, "SetReaderPos": true}
+
+// the names of the functions the statement-level translators translate on their own (they are not helpers of anything)
+func targetNames() map[string]bool {
+	m := map[string]bool{}
+	for _, t := range coreTargets {
+		m[t.name] = true
+	}
+	for _, t := range treeTargets {
+		m[t.name] = true
+	}
+	for _, t := range progTargets {
+		m[t.name] = true
+	}
+	return m
+}
+
+func pkgHelpers(dir string) map[string]*ast.FuncDecl {
+	helpers := map[string]*ast.FuncDecl{}
+	entries, err := filepath.Glob(filepath.Join(repo, dir, "*.go"))
+	if err != nil {
+		return helpers
+	}
+	sort.Strings(entries)
+	for _, e := range entries {
+		if strings.HasSuffix(e, "_test.go") {
+			continue
+		}
+		if f, err := parser.ParseFile(fset, e, nil, 0); err == nil {
+			for _, d := range f.Decls {
+				if h, ok := d.(*ast.FuncDecl); ok && h.Body != nil && !ast.IsExported(h.Name.Name) && !targetNames()[h.Name.Name] {
+					helpers[h.Name.Name] = h // functions and methods by name (the skeleton has no type information)
+				}
+			}
+		}
+	}
+	return helpers
+}
+
+func sliceOps(dir string, fd *ast.FuncDecl) []string {
+	out := []string{}
+	if fd == nil {
+		return out
+	}
+	helpers := pkgHelpers(dir)
+	seen := map[string]bool{fd.Name.Name: true}
+	var walk func(n ast.Node)
+	walk = func(n ast.Node) {
+		ast.Inspect(n, func(m ast.Node) bool {
+			switch x := m.(type) {
+			case *ast.AssignStmt:
+				// an element write, or an assignment of an append / make / slice literal / slice expression: the whole statement
+				for _, l := range x.Lhs {
+					if _, ok := l.(*ast.IndexExpr); ok {
+						out = append(out, abstractLocals(x))
+						return true
+					}
+				}
+				if len(x.Rhs) == 1 && isSliceOp(x.Rhs[0]) {
+					out = append(out, abstractLocals(x))
+					return false
+				}
+			case *ast.CallExpr:
+				if isSliceOp(x) {
+					out = append(out, abstractLocals(x))
+					return true
+				}
+				name := ""
+				switch f := x.Fun.(type) {
+				case *ast.Ident:
+					name = f.Name
+				case *ast.SelectorExpr:
+					name = f.Sel.Name
+				}
+				if slicePrimitives[name] {
+					out = append(out, abstractLocals(x))
+					return true
+				}
+				if h := helpers[name]; h != nil && !seen[name] && fd.Name.Name != name {
+					seen[name] = true
+					for _, a := range x.Args {
+						walk(a)
+					}
+					walk(h.Body)
+					return false
+				}
+			case *ast.SliceExpr:
+				out = append(out, abstractLocals(x))
+			case *ast.CompositeLit:
+				if _, ok := x.Type.(*ast.ArrayType); ok {
+					out = append(out, abstractLocals(x))
+				}
+			}
+			return true
+		})
+	}
+	walk(fd.Body)
+	return out
+}
+
+func isSliceOp(e ast.Expr) bool {
+	switch x := e.(type) {
+	case *ast.ParenExpr:
+		return isSliceOp(x.X)
+	case *ast.CallExpr:
+		if id, ok := x.Fun.(*ast.Ident); ok && (id.Name == "append" || id.Name == "copy" || id.Name == "make") && id.Obj == nil {
+			return true
+		}
+		if len(x.Args) == 1 { // a conversion of a slice literal: NodeList([]parsley.Node{…})
+			if cl, ok := x.Args[0].(*ast.CompositeLit); ok {
+				if _, ok := cl.Type.(*ast.ArrayType); ok {
+					return true
+				}
+			}
+		}
+	case *ast.CompositeLit:
+		_, ok := x.Type.(*ast.ArrayType)
+		return ok
+	case *ast.SliceExpr:
+		return true
+	}
+	return false
+}
+
 func methodBody(rel, recv, name string) string {
 	fd := findMethod(parseFile(rel), recv, name)
 	if fd == nil {
@@ -77,19 +331,35 @@ func methodBody(rel, recv, name string) string {
 func writeAstFacts(path string) error {
 	type f struct{ name, val, comment string }
 	fs := []f{
-		{"appendNodeBody", normBody("ast/helpers.go", "AppendNode"), "ast/helpers.go AppendNode"},
 		{"setReaderPosBody", normBody("ast/helpers.go", "SetReaderPos"), "ast/helpers.go SetReaderPos"},
-		{"nodeListAppendBody", methodBody("ast/node_list.go", "NodeList", "Append"), "ast/node_list.go (*NodeList).Append"},
 		{"nodeListSetReaderPosBody", methodBody("ast/node_list.go", "NodeList", "SetReaderPos"), "ast/node_list.go NodeList.SetReaderPos"},
 		{"terminalSetReaderPosBody", methodBody("ast/terminal_node.go", "TerminalNode", "SetReaderPos"), "ast/terminal_node.go (*TerminalNode).SetReaderPos"},
 		{"nonTerminalSetReaderPosBody", methodBody("ast/nonterminal_node.go", "NonTerminalNode", "SetReaderPos"), "ast/nonterminal_node.go (*NonTerminalNode).SetReaderPos"},
-		{"seqResultHandlerBody", normBody("combinator/seq.go", "seqDefaultResultHandler"), "combinator/seq.go seqDefaultResultHandler (copies the node buffer)"},
-		{"seqParseNextBody", methodBody("combinator/seq.go", "sequence", "parseNext"), "combinator/seq.go (*sequence).parseNext (writes the node buffer)"},
 	}
 	var sb strings.Builder
 	sb.WriteString("/- GENERATED by harness/cmd/factgen (-out-ast) from the repository's current source on every run. Do not edit. -/\nnamespace PV.FactsAst\n\n")
 	for _, x := range fs {
 		fmt.Fprintf(&sb, "/-- %s -/\ndef %s : String := %s\n\n", x.comment, x.name, strconv.Quote(x.val))
+	}
+	type sk struct {
+		name, comment string
+		ops           []string
+	}
+	for _, x := range []sk{
+		{"appendNodeSliceOps", "ast/helpers.go AppendNode: its slice-level operations (the body is tied by translation at value level)",
+			sliceOps("ast", findFunc(parseFile("ast/helpers.go"), "AppendNode"))},
+		{"nodeListAppendSliceOps", "ast/node_list.go (*NodeList).Append: its slice-level operations (the body is tied by translation at value level)",
+			sliceOps("ast", findMethod(parseFile("ast/node_list.go"), "NodeList", "Append"))},
+		{"seqResultHandlerSliceOps", "combinator/seq.go seqDefaultResultHandler (copies the node buffer): its slice-level operations (the body is tied by translation at value level)",
+			sliceOps("combinator", findFunc(parseFile("combinator/seq.go"), "seqDefaultResultHandler"))},
+		{"seqParseNextSliceOps", "combinator/seq.go (*sequence).parseNext (writes the node buffer): its slice-level operations (the body is tied by translation at value level)",
+			sliceOps("combinator", findMethod(parseFile("combinator/seq.go"), "sequence", "parseNext"))},
+	} {
+		qs := make([]string, len(x.ops))
+		for i, o := range x.ops {
+			qs[i] = strconv.Quote(o)
+		}
+		fmt.Fprintf(&sb, "/-- %s -/\ndef %s : List String := [%s]\n\n", x.comment, x.name, strings.Join(qs, ", "))
 	}
 	clips, before := memoizeClipFacts()
 	fmt.Fprintf(&sb, "/-- Memoize clips the capacity of the list it caches and returns: a full slice expression x[:len(x):len(x)] occurs -/\ndef memoizeClips : Bool := %v\n\n", clips)
